@@ -130,6 +130,26 @@ pub fn natural_width(case: &Case) -> Option<usize> {
     }
 }
 
+/// T3 sizes (quick, thorough): fixed work; the allow list was validated with far more trials than either (DESIGN 2.4)
+const T3_CASES: (u32, u32) = (60_000, 240_000);
+
+fn t3_size(tier: crate::run::Tier, sizes: (u32, u32)) -> u32 {
+    let n = match tier {
+        crate::run::Tier::Quick => sizes.0,
+        crate::run::Tier::Thorough => sizes.1,
+    };
+    std::env::var("VERIF_T3_CASES").ok().and_then(|v| v.parse().ok()).unwrap_or(n)
+}
+fn c01_t3(rep: &mut crate::run::Reporter, stats: &mut crate::run::Stats, tier: crate::run::Tier, findings: &[crate::run::Finding]) {
+    crate::e1::t3(&C01, crate::run::seed(), t3_size(tier, T3_CASES), findings, rep, stats, false);
+}
+fn c02_t3(rep: &mut crate::run::Reporter, stats: &mut crate::run::Stats, tier: crate::run::Tier, findings: &[crate::run::Finding]) {
+    crate::e1::t3(&C02, crate::run::seed(), t3_size(tier, T3_CASES), findings, rep, stats, false);
+}
+fn c03_t3(rep: &mut crate::run::Reporter, stats: &mut crate::run::Stats, tier: crate::run::Tier, findings: &[crate::run::Finding]) {
+    crate::e1::t3(&C03, crate::run::seed(), t3_size(tier, T3_CASES), findings, rep, stats, false);
+}
+
 pub static C01: E1Prop = E1Prop {
     id: "C01",
     oracle: |c, o, _| oracle::c01(c, o),
@@ -140,7 +160,7 @@ pub static C01: E1Prop = E1Prop {
     use_t0: true,
     tape_len: 600,
     assumptions: &[],
-    extra: None,
+    extra: Some(c01_t3),
     exclude: None,
     raw_oracle: None,
     t2_cases: (20_000, 400_000),
@@ -156,7 +176,7 @@ pub static C02: E1Prop = E1Prop {
     use_t0: true,
     tape_len: 600,
     assumptions: &["N erases exactly the differences the property allows; `(f())` / `(...)` are kept only in multi-value positions"],
-    extra: None,
+    extra: Some(c02_t3),
     exclude: None,
     raw_oracle: None,
     t2_cases: (20_000, 400_000),
@@ -172,7 +192,7 @@ pub static C03: E1Prop = E1Prop {
     use_t0: true,
     tape_len: 600,
     assumptions: &[],
-    extra: None,
+    extra: Some(c03_t3),
     exclude: None,
     raw_oracle: None,
     t2_cases: (20_000, 400_000),
@@ -281,13 +301,27 @@ fn gen_c08(t: &mut Tape, l: &mut Vec<&'static str>) -> Option<Case> {
         l.push("requires-top-level");
         return Some(Case::new(src, cfg));
     }
-    gen_standard(t, l, GenOpts { ignores: true, ..GenOpts::stmt_comments() }, false, false)
+    // one case in four with a range (any two offsets, also inside an ignored statement): the directive wins over the range
+    let with_range = t.chance(64);
+    let mut case = gen_standard(t, l, GenOpts { ignores: true, ..GenOpts::stmt_comments() }, false, false)?;
+    if with_range {
+        let n = case.source.len();
+        let a = t.pick_wide(4096) * (n + 1) / 4096;
+        let b = t.pick_wide(4096) * (n + 1) / 4096;
+        case.range = match t.pick(4) {
+            0 => Some((Some(a), None)),
+            1 => Some((None, Some(b))),
+            _ => Some((Some(a.min(b)), Some(a.max(b)))),
+        };
+        l.push("range");
+    }
+    Some(case)
 }
 
 pub static C08: E1Prop = E1Prop {
     id: "C08",
     oracle: |c, o, _| oracle::c08(c, o),
-    rule: "T0 (corpus files with ignore directives x catalogue) + T1: generated programs with `-- stylua: ignore` before any statement kind at any depth and before table fields, `ignore start` / `ignore end` regions (closed, unclosed, end without start), ignored code rendered with odd spacing, with / without `;` and trailing comments, all configurations (sort_requires off). Oracle: the checker computes the ignored nodes from the INPUT by the documented rule (directive line in the leading comments; region state per block / table); each node's source slice [first token .. last token, plus `;` for statements] must occur verbatim in the output, in order, at the same position in the semantic token sequence; and every top-level statement that neither contains nor neighbours an ignored node equals its text in the output obtained with the directives neutralised. Non-trivial: at least one ignored slice would have been changed by the formatter.",
+    rule: "T0 (corpus files with ignore directives x catalogue) + T1: generated programs with `-- stylua: ignore` before any statement kind at any depth and before table fields, `ignore start` / `ignore end` regions (closed, unclosed, end without start), ignored code rendered with odd spacing, with / without `;` and trailing comments, all configurations (sort_requires off); one case in four with a formatting range whose bounds may fall inside an ignored statement (first half of the oracle only). Oracle: the checker computes the ignored nodes from the INPUT by the documented rule (directive line in the leading comments; region state per block / table); each node's source slice [first token .. last token, plus `;` for statements] must occur verbatim in the output, in order, at the same position in the semantic token sequence; and every top-level statement that neither contains nor neighbours an ignored node equals its text in the output obtained with the directives neutralised. Non-trivial: at least one ignored slice would have been changed by the formatter.",
     gen_case: gen_c08,
     quick_cases: 120_000,
     thorough_cases: 2_000_000,
@@ -859,6 +893,9 @@ fn c07_numbers_verify(rep: &mut Reporter, stats: &mut Stats) {
 
 fn c07_scaling(rep: &mut Reporter, stats: &mut Stats, tier: Tier, findings: &[Finding]) {
     c07_numbers_verify(rep, stats);
+    // T3 without an allow list: a comment in ANY gap between two code tokens of a generated or corpus program must not
+    // make the formatter panic or exceed its work budget
+    crate::e1::t3(&C07, crate::run::seed(), t3_size(tier, (120_000, 1_000_000)), findings, rep, stats, true);
     use crate::cfg::Cfg;
     use crate::engine::{run_format_budget, Outcome};
     use crate::lex::Syntax;
